@@ -22,12 +22,15 @@ pub struct Plan {
     pub clock: Option<Bounds>,
     /// curated lines from real starts (every prefix a root)
     pub lines: Option<Bounds>,
+    /// deterministic long walks: (number of starts, plies, take a root every n plies, null move
+    /// every n-th ply (0 = never), bounds)
+    pub walk: Option<(usize, usize, usize, usize, Bounds)>,
     pub raws: Vec<(Box<dyn RawUniverse>, Bounds)>,
 }
 
 impl Plan {
     pub fn empty() -> Plan {
-        Plan { start: None, r960: None, dfrc: None, mid: None, clock: None, lines: None, raws: Vec::new() }
+        Plan { start: None, r960: None, dfrc: None, mid: None, clock: None, lines: None, walk: None, raws: Vec::new() }
     }
 }
 
@@ -69,6 +72,16 @@ pub fn run_plan(run: &mut Run, plan: &Plan, mon: &dyn Monitor, cand: &dyn CandMo
         let roots = line_roots(&run.sink);
         let t = bfs(&roots, bd, mon, &run.sink);
         run.add("R-LINES", bj(bd, json!({"roots": roots.len(), "lines": LINES.len(), "mode": "explicit-state BFS from every prefix of curated legal game lines from real start positions"})), true, t0, t);
+    }
+    if let Some((nstarts, plies, root_every, null_every, bd)) = &plan.walk {
+        let t0 = Instant::now();
+        let step = std::cmp::max(1, 960 / *nstarts);
+        let starts: Vec<(u32, u32)> = (0..960u32).step_by(step).map(|n| (n, (n * 7 + 13) % 960)).collect();
+        let mut roots = walk_roots(&starts, *plies, 5, *null_every, *root_every, &run.sink);
+        roots.extend(walk_roots(&starts.iter().map(|&(w, _)| (w, w)).collect::<Vec<_>>(), *plies, 11, *null_every, *root_every, &run.sink));
+        let t = bfs(&roots, bd, mon, &run.sink);
+        run.add("R-WALK", bj(bd, json!({"roots": roots.len(), "starts": starts.len() * 2, "plies_per_line": plies, "root_every_plies": root_every, "null_move_every_plies": null_every,
+            "schedule": "move index (mult*ply + w + 3b) mod #legal in the reference model's sorted list, mult 5 on double-Chess960 starts (n, 7n+13 mod 960) and mult 11 on Chess960 starts (n, n)", "mode": "explicit-state BFS from every root"})), true, t0, t);
     }
     if let Some(bd) = &plan.r960 {
         let t0 = Instant::now();
